@@ -61,9 +61,9 @@ Variants(S, z, lo) ==
   \o (IF lo = 0 THEN << [g |-> "mirror", S |-> Mirror(S), z |-> z, lo |-> lo] >> ELSE <<>>)
 
 Init ==
-  /\ \E n \in 1..MaxStreams : \E f \in IdxSeqs(n) : \E lo \in Ladders : \E z \in [1..n -> 1..NZones] :
+  /\ ForEachMultiset(MaxStreams, LAMBDA f : \E lo \in Ladders : \E z \in [1..Len(f) -> 1..NZones] :
         /\ z[1] = 1
-        /\ inp = [S |-> [i \in 1..n |-> USeq[f[i]]], z |-> z, lo |-> lo]
+        /\ inp = [S |-> [i \in 1..Len(f) |-> USeq[f[i]]], z |-> z, lo |-> lo])
   /\ phase = "new"
 
 Emit == /\ phase = "new" /\ phase' = "emitted" /\ UNCHANGED inp
